@@ -370,7 +370,7 @@ fn exhaustive_job(nvars: usize, fam_idx: usize, chunk: usize, chunks: usize, str
         if count % 512 == 0 {
             // keep unique tables small; sharing across long histories is C13's subject
             env = BDDEnv::new();
-            other = BDDEnv::new();
+            other = BDDEnv::default();
         }
         let t = Tt::from_u64(nvars as u32, bits);
         check_function(&mut st, &env, &other, &t, &fam.labels, fam.spare, fam.name, &ROUTES, &mut seen, &mut hashes, bits);
@@ -389,7 +389,7 @@ fn random_job(ctx: &Ctx, job: usize, iters: u64) -> Stats {
     let mut seen = HashMap::new();
     let mut hashes = HashMap::new();
     for it in 0..iters {
-        let env: BDDEnv<usize> = BDDEnv::new();
+        let env: BDDEnv<usize> = BDDEnv::default();
         let other: BDDEnv<usize> = BDDEnv::new();
         let nvars = 5 + rng.usize(3);
         let mut labels: Vec<usize> = Vec::new();
@@ -455,7 +455,19 @@ fn api_soup_job(ctx: &Ctx, job: usize, sequences: u64, len: usize) -> Stats {
                     rng.usize(pool.len())
                 }
             };
-            let list = |rng: &mut Rng, pool: &Vec<D>, max: usize| -> Vec<usize> { (0..rng.usize(max + 1)).map(|_| pick(rng, pool)).collect() };
+            // lists repeat entries often (a repeated entry counts twice)
+            let list = |rng: &mut Rng, pool: &Vec<D>, max: usize| -> Vec<usize> {
+                let mut v: Vec<usize> = Vec::new();
+                for _ in 0..rng.usize(max + 1) {
+                    if !v.is_empty() && rng.chance(1, 3) {
+                        let again = v[rng.usize(v.len())];
+                        v.push(again);
+                    } else {
+                        v.push(pick(rng, pool));
+                    }
+                }
+                v
+            };
             let op = match rng.below(15) {
                 12 => Op::Retain(pick(&mut rng, &pool), rng.below(3) as u8),
                 13 => Op::Clean(rng.usize(pool.len())),
@@ -470,7 +482,14 @@ fn api_soup_job(ctx: &Ctx, job: usize, sequences: u64, len: usize) -> Stats {
                     let n = rng.range(-1, xs.len() as i64 + 1);
                     Op::CountConst(["aln", "amn", "exn"][rng.usize(3)], xs, n)
                 }
-                9 => Op::CountList(["leq", "lt", "geq", "gt", "eq"][rng.usize(5)], list(&mut rng, &pool, 3), list(&mut rng, &pool, 3)),
+                9 => {
+                    let xs = list(&mut rng, &pool, 4);
+                    let mut ys = list(&mut rng, &pool, 4);
+                    if !xs.is_empty() && rng.chance(1, 3) {
+                        ys.push(xs[rng.usize(xs.len())]); // the lists share entries
+                    }
+                    Op::CountList(["leq", "lt", "geq", "gt", "eq"][rng.usize(5)], xs, ys)
+                }
                 10 => Op::Model(pick(&mut rng, &pool)),
                 _ => Op::Fp(pick(&mut rng, &pool), pick(&mut rng, &pool), pick(&mut rng, &pool)),
             };
@@ -487,6 +506,17 @@ fn api_soup_job(ctx: &Ctx, job: usize, sequences: u64, len: usize) -> Stats {
                     break;
                 }
             };
+            // the mirrored spelling of a list comparison is the same function: same diagram
+            if let Op::CountList(k, xs, ys) = &op {
+                let mirrored = Op::CountList(match *k { "leq" => "geq", "lt" => "gt", "geq" => "leq", "gt" => "lt", _ => "eq" }, ys.clone(), xs.clone());
+                if let Ok((Some(r2), _)) = guarded(|| apply(&env, &mirrored, &|i| Rc::clone(&pool[i]))) {
+                    st.bump("mirrored_list_comparisons");
+                    if r2.as_ref() != r.as_ref() {
+                        st.violate("c02.canonical", "C02:api:CountList:mirrored-differs".into(), format!("{:?} gives {} but the mirrored call {:?} gives {}\n operands: {:?}", op, short(&r), mirrored, short(&r2), super::c13_operands_short(&op, &pool)), case());
+                        break;
+                    }
+                }
+            }
             match check_ordered_reduced(&r) {
                 Ok(k) => st.add("nodes_walked", k),
                 Err(m) => {
@@ -515,6 +545,9 @@ pub fn run(ctx: &Ctx) -> (Stats, Spec) {
     let (seqs, slen) = ctx.tier.pick((400u64, 40usize), (20_000u64, 60usize));
     let parts = super::common::with_stderr_gagged(|| util::par_jobs(16, |job| api_soup_job(ctx, job, seqs, slen)));
     st.merge(crate::report::merge_all(parts));
+    let wide_iters = ctx.tier.pick(400u64, 8_000u64);
+    let parts = util::par_jobs(16, |job| super::wide::wide_job(ctx, "C02", job, wide_iters));
+    st.merge(crate::report::merge_all(parts));
     // all 256 functions over 3 variables, both families
     let parts = util::par_jobs(2 * 8, |job| exhaustive_job(3, job / 8, job % 8, 8, 1));
     st.merge(crate::report::merge_all(parts));
@@ -531,13 +564,14 @@ pub fn run(ctx: &Ctx) -> (Stats, Spec) {
     st.merge(crate::report::merge_all(parts));
 
     let spec = Spec {
-        rule: "each Boolean function (all over 3 variables; every 2nd [quick] / all [thorough] over 4; random over 5-7 sparse labels incl. usize::MAX) is built by 18 independent routes through the public API (operands from another environment handed to an operation [or, absorption, ite], mk_choice, DNF, CNF, Shannon/ite, xor detour, double negation, absorption, De Morgan via nor/nand, quantifier detour, counting detour, fixed-point detour, model of minterms, retain(Any)+clean, operand-order split) alternating between two environments, plus the formula language; and random sequences of API calls (connectives, ite, quantifiers, counting over lists of plain variables in arbitrary order and compound operands, model, fp, retain, clean, exists_impl) whose every result is compared with the canonical diagram of its own truth table; distinct = (table, route, family); non-trivial = non-constant table with >= 2 support variables.".into(),
+        rule: "each Boolean function (all over 3 variables; every 2nd [quick] / all [thorough] over 4; random over 5-7 sparse labels incl. usize::MAX) is built by 18 independent routes through the public API (operands from another environment handed to an operation [or, absorption, ite], mk_choice, DNF, CNF, Shannon/ite, xor detour, double negation, absorption, De Morgan via nor/nand, quantifier detour, counting detour, fixed-point detour, model of minterms, retain(Any)+clean, operand-order split) alternating between two environments, plus the formula language; and random sequences of API calls (connectives, ite, quantifiers, counting over lists of plain variables in arbitrary order and compound operands, model, fp, retain, clean, exists_impl) whose every result is compared with the canonical diagram of its own truth table; distinct = (table, route, family); non-trivial = non-constant table with >= 2 support variables. MANY VARIABLES: the same judgement on environments with 65-200 variables (more than a machine word of them), where operands are random DNFs and results are compared pointwise on 48 sampled assignments per case (biased towards the operands' cubes) and walked for order / reduction.".into(),
         assumptions: vec![
             "'hash equal' is demanded only in the direction same function => same hash; collisions between different functions are counted, not reported".into(),
-            "a change replacing structural equality by hash equality would need a constructed 64-bit collision to be observed (out of reach)".into(),
+            "FxHash collisions on usize labels are not constructed here; hash-for-equality confusions are exercised through a constant-hash symbol type in C03 / C04 / C05 / C06 / C07 / C20".into(),
             "variables > 7 and histories longer than one function's routes are outside this check (C13 covers long histories)".into(),
         ],
         floors: vec![
+            ("many_variable_cases".into(), 1_000, "environments with more than 64 variables never exercised".into()),
             ("route_quantifier-detour".into(), 500, "quantifier route never exercised".into()),
             ("route_fixpoint-detour".into(), 500, "fixed-point route never exercised".into()),
             ("route_formula-text".into(), 200, "formula-text route never exercised".into()),
@@ -550,6 +584,10 @@ pub fn run(ctx: &Ctx) -> (Stats, Spec) {
 }
 
 pub fn replay(_ctx: &Ctx, _monitor: &str, case: &Value, st: &mut Stats) {
+    if case.get("kind").and_then(|k| k.as_str()) == Some("wide") {
+        super::wide::replay_wide(_ctx, "C02", case, st);
+        return;
+    }
     if case.get("kind").and_then(|k| k.as_str()) == Some("api-soup") {
         // deterministic: re-run the recorded job's stream (same seed, job) — the sequence is found again
         let job = case.get("job").and_then(|j| j.as_u64()).unwrap_or(0) as usize;
